@@ -294,4 +294,77 @@ def run(tier):
     # ---------------- G5 a suspended VM is re-rooted when it is rebuilt (same rule as C07 R3b)
     import c07
     c07.rerooting_rule(fx, ck, "G5.rerooting-symmetric")
+    guard_coherence(fx, ck)
+    cn2 = Check("C02", tier, "", [])
+    guard_coherence(ctl, cn2, prefix="c02::")
+    if not any(fd[0] == "G5b.guard-coherence" for fd in cn2.findings):
+        ck.closed_fail.append("G5b control failed: the fixture frame rooted in a foreign guard was not reported")
     return ck.finish()
+
+
+def guard_coherence(fx, ck, name="G5b.guard-coherence", prefix=""):
+    """G5b: a structure that owns a guard roots its own values.
+
+    A value copied for a structure with `f(&guard)` (duplicate, guard_value, ...) lives as long as *that* guard.  Where a function builds an
+    aggregate that holds a `Guard` by value (a trampoline frame with its `register_guard`, a VM with its guard) every other field that was
+    rooted through a local guard must have been rooted through the guard the aggregate keeps: a value rooted in a neighbour's guard (the guard
+    of the VM while building a caller frame) loses its root when the neighbour releases it."""
+    from c09 import ancestors
+    ck.rule(name, "fields of an aggregate that owns a Guard are rooted through that guard, not through another local guard", floor=1)
+    for p, f in sorted(fx.fns.items()):
+        if prefix and not p.startswith(prefix):
+            continue
+        gl = {i for i, t in enumerate(f.locals) if fx.tys(t).startswith("gc::Guard<") or fx.tys(t).startswith("c02::Guard")}
+        # guards of the enclosing function seen from inside a closure: `&Guard` read out of the closure environment
+        upvar_guards = set()
+        if f.closure:
+            for bi0, bl0 in enumerate(f.blocks):
+                for s0 in bl0["s"]:
+                    if s0[0] == "a" and not s0[1][1] and fx.tys(f.locals[s0[1][0]]).startswith("&gc::Guard<"):
+                        for pl in F.rvalue_places(s0[2]):
+                            if any(str(a).startswith("closure:") for a, v, n in F.place_fields(pl)):
+                                upvar_guards.add(s0[1][0])
+        if len(gl) + len(upvar_guards) < 2 or not gl:
+            continue
+        for bi, bl in enumerate(f.blocks):
+            for s in bl["s"]:
+                if s[0] != "a" or s[2][0] != "agg" or s[2][1].get("k") != "adt":
+                    continue
+                ops = s[2][2]
+                fields = s[2][1].get("fields") or []
+                own = set()
+                own_ops = set()
+                for oi, o in enumerate(ops):
+                    if o[0] in ("c", "m") and not o[1][1] and o[1][0] in gl:
+                        own_ops.add(oi)
+                        l = o[1][0]
+                        for _ in range(8):     # the guard may be moved through temporaries
+                            own.add(l)
+                            ds = [d for d in f.defs().get(l, []) if d[1] != "T" and d[2][0] == "use" and d[2][1][0] in ("c", "m")
+                                  and not d[2][1][1][1] and d[2][1][1][0] in gl]
+                            if len(ds) == 1 and len(f.defs().get(l, [])) == 1:
+                                l = ds[0][2][1][1][0]
+                            else:
+                                break
+                if not own:
+                    continue
+                for i, o in enumerate(ops):
+                    if o[0] not in ("c", "m"):
+                        continue
+                    if i in own_ops:
+                        continue
+                    anc = ancestors(f, o[1][0])
+                    used = (anc & (gl | upvar_guards))
+                    if not used or anc & own & used:
+                        if used:
+                            ck.instance(name, "%s: %s.%s rooted through the aggregate's guard" % (p, s[2][1].get("p", "?").split("::")[-1],
+                                                                                                  fields[i] if i < len(fields) else i), F.short_span(s[3]))
+                        continue
+                    fld = fields[i] if i < len(fields) else str(i)
+                    other = sorted(f.var_name(g) or ("a guard captured from the enclosing function" if g in upvar_guards else "_%d" % g) for g in used)
+                    mine = sorted(f.var_name(g) or ("_%d" % g) for g in own)
+                    ck.instance(name, "%s: %s.%s rooted through %s" % (p, s[2][1].get("p", "?").split("::")[-1], fld, other), F.short_span(s[3]), ok=False)
+                    ck.finding(name, "%s/%s/%s.%s" % (name, p, s[2][1].get("p", "?").split("::")[-1], fld), F.short_span(s[3]),
+                               "`%s` builds a `%s` that keeps the guard `%s`, but roots its field `%s` through the other guard `%s`: the value loses its "
+                               "root as soon as that guard is released or cleared, while the structure still refers to it"
+                               % (p, s[2][1].get("p", "?").split("::")[-1], ",".join(mine), fld, ",".join(other)))
